@@ -77,6 +77,43 @@ def run(ctx):
                 exps.append(exp)
         units.append((src, cfgs))
         oracle.append(exps)
+    # the same grid with byte-typed operands (zero extension; byte/int mixing) and with both operands the same variable
+    VARIANTS = [('bx', 'ys[i]', lambda a, b: (a & 255, b)), ('xs[i]', 'by', lambda a, b: (a, b & 255)), ('bx', 'by', lambda a, b: (a & 255, b & 255)),
+                ('x', 'x', lambda a, b: (a, a)), ('bx', 'bx', lambda a, b: (a & 255, a & 255)), ('x', 'bx', lambda a, b: (a, a & 255))]
+    for op in BIN:
+        if op in ('and', 'or'):
+            continue
+        for la, lb, conv in VARIANTS:
+            e = '(%s %s %s)' % (la, op, lb)
+            tail = '' if op not in '+-*/%' else ' is bool'
+            body = ('    int x = xs[i]; byte bx = xs[i] is byte; byte by = ys[i] is byte;\n    write(%s); write(\' \');\n    if (%s) { write(\'T\'); } else { write(\'F\'); }\n'
+                    '    bool keepv = %s%s; write(keepv);\n'
+                    '    try { !truth_is_defeat(%s%s); write(\'f\'); } undo { write(\'t\'); }\n    write(\';\');\n') % (e, e, e, tail, e, tail)
+            src = ('empty @is_you(const int[] zs) {\n  int n = zs.length / 2;\n  int xs[n]; int ys[n];\n'
+                   '  for (int i = 0; i < n; i += 1) { xs[i] = zs[i]; ys[i] = zs[n + i]; }\n'
+                   '  for (int i = 0; i < n; i += 1) {\n%s  }\n}\n') % body
+            cfgs, exps = [], []
+            for w in ws:
+                g = grid(w, rng, 1 if q else 8)
+                M = 1 << (8 * w)
+                g += [-(M >> 1) + 200, -(M >> 1) + 255, -(M >> 1) + 256, (M >> 1) - 255, (M >> 1) - 256, 200, -200]
+                pairs = [(a, b) for a in g for b in g]
+                if q:
+                    pairs = [pr for k, pr in enumerate(pairs) if k % 3 == (BIN.index(op) + len(la)) % 3]
+                if op in '/%':
+                    pairs = [(a, b) for a, b in pairs if conv(a, b)[1] != 0]
+                for i in range(0, len(pairs), 64):
+                    ch = pairs[i:i + 64]
+                    exp = b''
+                    for a, b in ch:
+                        r = spec_bin(op, *conv(a, b), w)
+                        truth = r[1] if r[0] == 'bool' else (r[1] != 0)
+                        txt = (b'true' if r[1] else b'false') if r[0] == 'bool' else str(r[1]).encode()
+                        exp += txt + b' ' + (b'T' if truth else b'F') + (b'true' if truth else b'false') + (b't' if truth else b'f') + b';'
+                    cfgs.append(Cfg(tuple(str(a) for a, _ in ch) + tuple(str(b) for _, b in ch), w, 800, False))
+                    exps.append(exp)
+            units.append((src, cfgs))
+            oracle.append(exps)
     # unary operators and casts
     SRC_UN = ('empty @is_you(const int[] xs) {\n  for (int i = 0; i < xs.length; i += 1) {\n    int x = xs[i]; byte b = x is byte; bool t = x is bool;\n'
               '    write(-x); write(\' \'); write(+x); write(\' \'); write(not x); write(\' \'); write(b is int); write(\' \'); write(t); write(\' \');\n'
